@@ -234,6 +234,7 @@ class Interp:
         self.closed = False
         self.clearing = False
         self.fin_count = 0
+        self.dropped_tokens = set()
         self.fin_set = set()
         self.deferred_violation = None
         self.raise_tokens = set()
@@ -413,6 +414,10 @@ class Interp:
             'key': key, 'slot': s, 'token': token, 'release': in_release,
             'ev': info['ev'] if info else None,
             'queued_left': len(self.queue), 'listeners': len(self.registered)})
+        if token in self.dropped_tokens:
+            self.fail('C04', 'delivered_after_clear', f'token {token} was '
+                      f'pending when clear() dropped all pending events, '
+                      f'and is delivered to h{s} all the same')
         if not self.enabled:
             allowed = self.inflight_ok
             if token not in allowed:
@@ -724,6 +729,34 @@ class Interp:
                 self.probes['death_verified'] += 1
         self.settle_die_later()
         self.finish(e, 'clear_world')
+
+    def op_clear_disp(self, op):
+        """EventDispatcher.clear() (plain dispatchers): all handlers and all
+        pending events are dropped for good, dispatching is enabled - also
+        when a callback of a running release does it."""
+        if self.is_world:
+            return 'skip'
+        started = {e[3] for e in self.log if e[0] == 'cb'}
+        dropped = [q for q in self.queue if q['token'] not in started]
+        for q in self.queue:
+            if q['token'] in started:
+                self.half.add(q['token'])   # in flight: lenient
+        for q in dropped:
+            q['dropped'] = len(self.log)
+        self.dropped_tokens.update(q['token'] for q in dropped)
+        self.queue = [q for q in self.queue if q['token'] in started]
+        self.half.update(t for _, t in self.cbstack)
+        for s in sorted(self.registered):
+            self.registered.discard(s)
+            self.touch(s)
+        self.enabled = True
+        self.log.append(('flag', True))
+        self.probes['dispatcher_cleared'] += 1
+        if self.cbstack:
+            self.probes['dispatcher_cleared_from_a_callback'] += 1
+            self.faults['clear_from_callback'] += 1
+        e = self.guarded(lambda: self.d.clear(), ('C04', 'C03'), 'clear()')
+        self.finish(e, 'clear')
 
     def op_gc(self, op):
         if self.cbstack:
@@ -1298,7 +1331,7 @@ FAULT_KINDS = ['raise_Boom', 'raise_Quit', 'raise_SwitchWorld', 'raise_Crash',
                'disable',
                'disable_enable', 'redispatch', 'enable', 'add_handler',
                'remove_handler', 'swap_handlers', 'guarded_nested_release',
-               'disable_dispatch']
+               'disable_dispatch', 'clear_restart']
 
 
 def fault_script(kind, rng, state):
@@ -1324,6 +1357,13 @@ def fault_script(kind, rng, state):
         # ... and leaves it off: the new event queues up behind the backlog
         state['stoken'] += 1
         return [['disable'], ['dispatch', rng.choice(EVENTS[:3]),
+                              state['stoken'], 1]]
+    if kind == 'clear_restart':
+        # start over from inside a callback: clear, register again, and
+        # leave with dispatching switched off and an event pending
+        state['stoken'] += 1
+        return [['clear_disp'], ['add_handler', rng.randrange(n)],
+                ['disable'], ['dispatch', rng.choice(EVENTS[:3]),
                               state['stoken'], 1]]
     if kind == 'guarded_nested_release':
         # disable, buffer a few events (the first receiver of the first one
